@@ -107,6 +107,24 @@ def unmask (mask w : Bytes) : Bytes := w.take 9 ++ xorBytes (w.drop 9) mask
 def syndromesZero (w : Bytes) : Bool :=
   syndrome 1 w == 0 && syndrome 2 w == 0 && syndrome 3 w == 0
 
+/-- A checker that evaluates the unmasked word only at the roots α^j, `j ∈ js` (`none` = the assertion on
+the length, as in `check`).  `check` is the case `js = [1, 2, 3]` (`Props/C11: check_eq_checkRoots`); for
+a proper sub-list the accepted set is a strictly larger (super-)code, whose words of weight 3 at distance
+3 from every code word are given by `subWitness`. -/
+def checkRoots (js : List Nat) (w mask : Bytes) : Option Bool :=
+  if w.length = 12 then some (js.all (fun j => syndrome j (unmask mask w) == 0)) else none
+
+/-- the locator of octet position `p` of a 12-octet word (degree `11 - p`), raised to the power `u` -/
+def locPow (u p : Nat) : Nat := alphaPow (u * (11 - p))
+
+/-- For positions `a`, `b`, `c`: the pattern, zero elsewhere, that vanishes at α^u and α^v
+(cross product of the two rows `(x_a^u, x_b^u, x_c^u)`, `(x_a^v, x_b^v, x_c^v)`; characteristic 2). -/
+def subWitness (u v a b c : Nat) : Bytes :=
+  let cross (p q : Nat) : Nat :=
+    Nat.xor (logMultiply (locPow u p) (locPow v q)) (logMultiply (locPow v p) (locPow u q))
+  (List.range 12).map (fun p =>
+    if p = a then cross b c else if p = b then cross a c else if p = c then cross a b else 0)
+
 /-- every element is an octet -/
 def isBytes (w : Bytes) : Bool := w.all (fun x => decide (x < 256))
 
